@@ -76,12 +76,15 @@ structure TaskRow where
   hasNext : Bool
   errorHandled : Bool
   trig : List (Tid × String)      -- runtime_context.triggered_by: (task execution, event)
+  keyed : Bool := true            -- has its unique key (false: a join created from a command restored from the
+                                  -- backlog, `wait` / `unique_key` are lost: Model/EngineX.lean)
   deriving Repr
 
 /-- a command of the workflow controller: run task `target`, triggered by `src` -/
 structure Cmd where
   target : String
   src : Option (Tid × String)
+  existing : Option Tid := none     -- RunExistingTask (resume of an IDLE task): Model/EngineX.lean
   deriving Repr
 
 /-- something handed to another thread / process / point in time -/
